@@ -13,7 +13,7 @@ from nauyaca.server.handler import StaticFileHandler
 from nauyaca.utils.url import ParsedURL
 
 import vf.server  # noqa: F401
-from vf import Ob, V, pick
+from vf import Ob, V, internal, pick
 from vf.modelfs import ABSENT, DIR, FILE, LINK, ModelFS, materialise
 
 ROOT = "/srv/root"
@@ -313,7 +313,7 @@ def contain_lemma(t1: int, t2: int, ri: int) -> bool:
         root = [ROOT, "/srv/root/d"][ri]
         h = StaticFileHandler(root)
         p = root + TAILS[t1] + TAILS[t2]
-        got = h._is_safe_path(Path(p))
+        got = internal(h, "_is_safe_path")(Path(p))
         # oracle: lexical component lists (Path() collapses '//' and '/./' but keeps '..')
         pc = [c for c in p.split("/") if c not in ("", ".")]
         rc = [c for c in root.split("/") if c]
